@@ -10,7 +10,7 @@ BOUNDS = {
                   handshake='(m,t) in {(3,1),(4,1),(5,2)}, every (client, server) pair, PRSS on/off, two symbolic split points, 14 arbitrary bytes after the handshake',
                   unwinding='<= 4 frames per data_received call (checked: exploration would exceed the decision cap otherwise)'),
     'thorough': dict(merge='stream 40 bytes, leftover <= 16, chunks <= 24, <= 2 pre-existing entries',
-                     roundtrip='n <= 3 frames, payload sizes 0..6', handshake='(m,t) up to (5,2) and (6,2), all pairs'),
+                     roundtrip='n <= 2 frames with payload sizes 0..6, 3 frames with sizes 0..2', handshake='(m,t) up to (5,2) and (6,2), all pairs'),
 }
 OUTSIDE = ['streams longer than the bound', 'more than 4 frames per call', 'garbage party ids >= m in the handshake (real code raises IndexError)',
            'two frames with the same label (precondition established by C09; such paths are cut and counted)']
@@ -339,7 +339,7 @@ def instances(tier):
     if not q:
         out.append(Inst('merge[npre=2]', h_merge, dict(N=28, L0=8, LX=16, npre=2), timeout=3400, max_paths=80000))
     for n in ((1, 2) if q else (1, 2, 3)):
-        out.append(Inst(f'roundtrip[n={n}]', h_roundtrip, dict(n=n, S=4 if q else 6), timeout=1800, max_paths=20000))
+        out.append(Inst(f'roundtrip[n={n}]', h_roundtrip, dict(n=n, S=4 if q else (6 if n < 3 else 2)), timeout=1800, max_paths=20000))
     cfgs = [(3, 1), (4, 1), (5, 2)] if q else [(2, 0), (3, 1), (4, 1), (5, 2), (6, 2)]
     for (m, t) in cfgs:
         for c in range(m):
